@@ -366,6 +366,10 @@ func init() {
 								trs = append(trs, fmt.Sprintf("ws:%d:%d", i, j))
 							}
 						}
+						// a duplicate spelled with a space after its comparator / inside its version
+						for i := 0; i < k; i++ {
+							trs = append(trs, fmt.Sprintf("dupws:%d:%d", i, len(pat[i])), fmt.Sprintf("dupws:%d:%d", i, len(pat[i])+1))
+						}
 						vs := make([]string, k)
 						for i := range vs {
 							vs[i] = vt
@@ -373,7 +377,7 @@ func init() {
 						v := pad3(vs)
 						for _, tr := range trs {
 							w := ArgStr("")
-							if strings.HasPrefix(tr, "ws:") {
+							if strings.HasPrefix(tr, "ws:") || strings.HasPrefix(tr, "dupws:") {
 								// spaces only: tab, CR and LF are non-printable and must be rejected (C17)
 								w = ArgStr(" ")
 							}
@@ -461,10 +465,11 @@ func init() {
 					for i := range vs {
 						vs[i] = strings.Replace(vt, "{d}", fmt.Sprint(2*i+1), 1)
 					}
-					trs := []string{"perm:1,0,2,3", "perm:0,2,1,3", "perm:0,1,3,2", "perm:2,3,0,1", "perm:3,2,1,0", "perm:1,3,0,2", "dup:1", "dup:2", "empty:2", "empty:4", "ws:1:1", "ws:2:0"}
+					trs := []string{"perm:1,0,2,3", "perm:0,2,1,3", "perm:0,1,3,2", "perm:2,3,0,1", "perm:3,2,1,0", "perm:1,3,0,2", "dup:1", "dup:2", "empty:2", "empty:4", "ws:1:1", "ws:2:0",
+						fmt.Sprintf("dupws:0:%d", len(pat[0])), fmt.Sprintf("dupws:1:%d", len(pat[1])+1), fmt.Sprintf("dupws:2:%d", len(pat[2])), fmt.Sprintf("dupws:3:%d", len(pat[3]))}
 					for _, tr := range trs {
 						w := ArgStr("")
-						if strings.HasPrefix(tr, "ws:") {
+						if strings.HasPrefix(tr, "ws:") || strings.HasPrefix(tr, "dupws:") {
 							w = ArgStr(" ")
 						}
 						out = append(out, &Config{ID: fmt.Sprintf("C16/%s/%s/%s", scheme, strings.Join(pat, " "), tr), Pkg: zzhPkg, Func: "C16Inv",
@@ -475,7 +480,7 @@ func init() {
 			return out
 		},
 		Bounds: func(tier string) string {
-			return "11 schemes; comparator patterns, alternating and not, with k <= 3 (quick: at most 24 patterns for k=2, 12 for k=3, and k <= 2 for gem and maven), plus, for k = 4, the two-pair patterns (quick: 4 of 16) under 6 permutations, 2 duplicates, 2 empty constraints and 2 spaces, and 2 (5) patterns with an exclusion between same-direction bounds under all 23 permutations; all permutations, one duplicate at every position, one empty constraint at every position, one space at every (for k=3: every second, quick: every third) byte position of every constraint (tab, CR and LF are non-printable and belong to C17); 7 patterns whose first two versions carry a two-letter qualifier in either letter case, under every permutation and duplicate"
+			return "11 schemes; comparator patterns, alternating and not, with k <= 3 (quick: at most 24 patterns for k=2, 12 for k=3, and k <= 2 for gem and maven), plus, for k = 4, the two-pair patterns (quick: 4 of 16) under 6 permutations, 2 duplicates, 2 empty constraints and 2 spaces, and 2 (5) patterns with an exclusion between same-direction bounds under all 23 permutations; all permutations, one duplicate at every position, one empty constraint at every position, one space at every (for k=3: every second, quick: every third) byte position of every constraint (tab, CR and LF are non-printable and belong to C17); a duplicate spelled with one space after its comparator or inside its version, for every constraint; 7 patterns whose first two versions carry a two-letter qualifier in either letter case, under every permutation and duplicate"
 		},
 	})
 
